@@ -555,11 +555,15 @@ unsafe fn do_spawn<F: PreExec>(
             }
             Err(ref e) if matches!(e.code, Some(Errno::EINTR)) => {}
             Err(_) => {
+                // The child may be running the program: let go of our ends of its stdio pipes
+                // before waiting, or a child reading its stdin to the end never exits
+                drop(ours);
                 process.wait()?;
                 return Err(Error::no_code("The cloexec pipe failed"));
             }
             Ok(..) => {
                 // pipe I/O up to PIPE_BUF bytes should be atomic
+                drop(ours);
                 process.wait()?;
                 return Err(Error::no_code("Short read on the CLOEXEC pipe"));
             }
